@@ -201,6 +201,9 @@ func c11(p *core.Prog, r *core.Report) {
 	// ... and an item can only be brought back to zero if it is looked up
 	// under the id that keys this connection's table (shared with C08-R2)
 	c08PostRemapIDs(p, r, "C11-R6")
+	r.Alias("C09-R4", "C11-R5")
+	c09Forget(p, r)
+	r.Alias("C09-R4", "")
 	r.Alias("C09-R3", "")
 }
 
